@@ -192,7 +192,12 @@ def parse_blocks(ans):
 class Case:
     def __init__(self, line):
         t = line.split()
-        self.df, self.cf = unhx(t[0]), unhx(t[2])
+        self.kind = None
+        if t[0] in ("kB", "kD"):
+            self.kind = t[0][1]
+            t = t[1:]
+        self.nodebug = t[0] == "N" or t[1] == "N"
+        self.df, self.cf = (b"" if t[0] == "N" else unhx(t[0])), unhx(t[2])
         self.pre = t[4]
         nloc = int(t[5])
         self.locs = t[6:6 + nloc]
@@ -203,9 +208,24 @@ class Case:
         for s in t[i + 4:i + 4 + ns]:
             p = s.split(";")
             self.servers.append({"status": int(p[0]), "framing": p[1], "cut": p[2],
-                                 "race": None if p[3] == "-" else unhx(p[3][1:]), "body": unhx(p[4])})
-        self.rel = rel_of(self.df)
-        self.target = target_of(self.df, self.cf)
+                                 "race": None if p[3] == "-" else unhx(p[3][1:]), "body": unhx(p[4]),
+                                 "redirect": unhx(p[5][1:]).decode() if len(p) > 5 else None})
+        self.redirected = None
+        if self.nodebug and self.kind is None:
+            # the first server that redirects the code-info lookup supplies debug file and id
+            for sv in self.servers:
+                if sv["redirect"]:
+                    parts = sv["redirect"].lstrip("/").split("/")
+                    self.redirected = (parts[-3].encode(), parts[-2])
+                    break
+        if self.kind is None and not self.nodebug:
+            self.rel = rel_of(self.df)
+            self.target = target_of(self.df, self.cf)
+        elif self.kind is None and self.redirected:
+            self.rel = rel_of(self.redirected[0])
+            self.target = target_of(self.redirected[0], self.cf)
+        else:
+            self.rel = self.target = None
 
     def url(self, i):
         return ("http://127.0.0.1:PORT%d%s" % (i, self.target)).encode()
@@ -248,8 +268,8 @@ class C16(PropBase):
         "Coq 8.16.1 kernel; vm_compute in the non-vacuity examples only",
         "hand-written model C16/Model.v (state machine of fetch_symbol_file/commit_cache_file/locate_symbols over an abstract file system), "
         "tied to the code by the correspondence run only (no translator)",
-        "the symbol parser is a parameter of the model (verdict a function of the byte string: C09/C10); the driver instantiates it with a "
-        "line recogniser for the generated subset of the format (C16/Driver.v), compared with the real parser on every case",
+        "the symbol parser is a parameter of the model (verdict a function of the byte string: C09/C10); the driver instantiates it with C09/C10's "
+        "parse_bytes (line recogniser of C16/Driver.v only for inputs with over-long lines), compared with the real parser on every case",
         "the temp file is modelled as holding all bytes received; the real tee callback lags by the unfinished last line and has "
         "delivered every byte when the parse returns Ok (observed through the committed content)",
         "RAII of NamedTempFile (removed on drop unless persisted), std::fs semantics, kernel rename/link atomicity, reqwest/hyper/tokio: "
@@ -257,10 +277,9 @@ class C16(PropBase):
         "extraction ExtrOcamlBasic only; ocaml/c16/main.ml (script -> event list, CRC32); harness/src/bin/c16.rs (scripted server, poll-counting drop adapter)",
     ]
     assumptions = [
-        "c16_rehit_same_partial assumes the parser contract: terminating an unterminated last line and appending an INFO URL record changes only the url",
+        "c16_rehit_same: parser = C09/C10's parse_bytes (the real parser's verdict when all lines are < 80 KiB), contract proved there (c10_cached_form_parse); hypothesis url_ok for the server URLs (always true for Url::to_string()). For inputs with over-long lines only c16_rehit_same_any_parser (contract assumed) and the harness apply",
         "no second process writes the cache concurrently (theorems about whole lookups take race = None); a crash of the whole process mid-persist is not modelled",
-        "lines between ~80 KiB and 160 KiB (where the streaming parser's over-long-line recovery depends on buffer alignment, C10) are not generated",
-        "lookups without debug file/id (code-info redirect lookup) and fetch_lookup/fetch_cab_lookup (binaries) are not covered",
+        "locate_file (fetch_lookup: binaries, extra debug info), the code-info redirect lookup and inputs with 60-170 KB lines are judged by the oracle only (the model answers '?'); fetch_cab_lookup (feature mozilla_cab_symbols) is not covered",
     ]
     manifest = {
         "text": "partial: Theorems (Coq, every event list incl. a dropped future at ANY position, every initial file system, every outcome of the "
@@ -268,12 +287,13 @@ class C16(PropBase):
                 "non-error status, the clean end of the whole body and parser Ok on exactly those bytes; it then equals downloaded bytes "
                 "(+ one newline iff they lack a final newline) + `INFO URL u\\n`; tmp is as before after every finished run and holds at most "
                 "the one in-flight file while pending; every non-success run leaves the whole cache untouched; local paths and cache decide "
-                "before the network (only NotFound cascades); servers are asked in order, once each; a later cache hit gives the same table and URL without a request (under the "
-                "stated parser contract). Runtime behaviour NOT modelled but exercised: reqwest/hyper/tokio, NamedTempFile RAII, rename atomicity — "
+                "before the network (only NotFound cascades); servers are asked in order, once each; a later cache hit gives the same table and URL without a request (c16_rehit_same: "
+                "for C09/C10's parser model with its proved contract, url_ok the only hypothesis). Runtime behaviour NOT modelled but exercised: reqwest/hyper/tokio, NamedTempFile RAII, rename atomicity — "
                 "the real HttpSymbolSupplier runs against a scripted loopback server (every truncation point, chunkings, cascades, I/O failures, "
                 "drops at poll boundaries) and is compared with the extracted model; an independent oracle re-checks cache/tmp trees and the re-hit.",
         "note": "Trusted: Coq kernel; hand-written model (correspondence-checked only); parser abstract (C09/C10); kernel/file-system and HTTP stack are runtime. "
-                "F-C16a (URL lost on cache hit for an over-long unterminated last line) fixed in /repo 13aaab3.",
+                "F-C16a (URL lost on cache hit for an over-long unterminated last line) fixed in /repo 13aaab3. Only c16_no_stray_tmp_partial / "
+                "c16_locate_no_stray_tmp_partial keep the suffix: NamedTempFile's Drop is a definition of the model, not derived.",
     }
 
     # ------------------------------------------------------------------ generation
@@ -281,7 +301,8 @@ class C16(PropBase):
         rng = Rng(seed)
         cases = []
         dist = {"truncate_every_k": 0, "corrupt_line_j": 0, "drop": 0, "random": 0, "big": 0, "special": 0,
-                "own_info_url": 0, "dictionary_bodies": 0, "cut_at_line_boundary": 0}
+                "own_info_url": 0, "dictionary_bodies": 0, "cut_at_line_boundary": 0,
+                "locate_file": 0, "code_info_redirect": 0, "lines_80_160k": 0}
         bg = BodyGen(rng)
         dist["dictionary_atoms"] = len(bg.kws) + len(bg.lits)
         thorough = tier != "quick"
@@ -400,6 +421,69 @@ class C16(PropBase):
                 for ct in ("c", "r"):
                     if k < n:
                         add("cut_at_line_boundary", case(0, [srv(framing=fr, cut="%s%d" % (ct, k), body=base)]))
+        # ---- locate_file for binaries / extra debug info (fetch_lookup): oracle only, the model answers '?'
+        blob = bytes((i * 7 + 3) % 256 for i in range(700)) + b"\nINFO URL not-a-sym-file\n" + bytes(range(256))
+        nbl = len(blob)
+        for kind in ("kB", "kD"):
+            def kadd(servers, **kw):
+                add("locate_file", kind + " " + case(0, servers, **kw))
+            kadd([srv(body=blob)])
+            kadd([srv(body=b"")])
+            kadd([srv(framing="K100,300,900", body=blob)])
+            kadd([srv(framing="E", body=blob)])
+            kadd([srv(404), srv(500), srv(framing="L400", body=blob)])
+            kadd([srv(cut="h", body=blob), srv(body=blob)])
+            kadd([srv(framing="K64", cut="s300", body=blob), srv(body=base)], tmo=250)
+            for k in range(0, nbl + 1, 37 if not thorough else 5):
+                kadd([srv(framing=rng.choice(["L", "L%d" % (k // 2), "K%d" % (k // 2 + 1), "K%d" % nbl]), cut="%s%d" % (rng.choice("cr") if k < nbl else "c", k), body=blob)])
+                if k % 3 == 0:
+                    kadd([srv(framing="E", cut="c%d" % k, body=blob)])
+            for d in range(0, 12):
+                kadd([srv(framing="L" + ",".join(str(x) for x in range(100, nbl, 100)), body=blob)], drop=d)
+                kadd([srv(framing="K200,400,600", cut="c650", body=blob), srv(framing="K300", body=blob)], drop=d)
+            kadd([srv(body=blob)], pre="F" + hx(b"older binary"))
+            kadd([srv(body=blob)], pre="D")
+            kadd([srv(body=blob)], locs=["-", "F" + hx(b"local copy")])
+            kadd([srv(body=blob)], env="t")
+            kadd([srv(body=blob)], env="c")
+            kadd([srv(body=blob)], env="m")
+            kadd([srv(body=blob, race=b"theirs")])
+            for w in range(0, nbl + 40, 97):
+                kadd([srv(body=blob)], env="w%d" % w)
+        # ---- modules without debug file/id: code-info redirect lookup first (oracle only)
+        def nadd(servers, **kw):
+            t = case(0, servers, **kw).split(" ")
+            t[0], t[1] = ("N", "N") if rng.chance(2, 3) else (t[0], "N")
+            add("code_info_redirect", " ".join(t))
+        loc = ";J" + hx(("/v1/" + rel_of(df0)).encode())
+        loc2 = ";J" + hx(("prefix/libfoo.so/%s/libfoo.so.sym" % ID).encode())
+        for rep in range(3 if not thorough else 12):
+            b = bg.body(df0) if rep else base
+            nb_ = len(b)
+            nadd([srv(body=b) + loc])
+            nadd([srv(body=b)])
+            nadd([srv(404), srv(framing="K%d" % (nb_ // 2), body=b) + loc])
+            nadd([srv(404) + loc, srv(body=b)])
+            nadd([srv(body=b) + loc2])
+            nadd([srv(cut="c%d" % rng.below(nb_), body=b) + loc])
+            nadd([srv(cut="c%d" % rng.below(nb_), body=b) + loc, srv(body=b)])
+            nadd([srv(body=join(lines[:4] + [b"JUNK"])) + loc])
+            nadd([srv(framing="L%d,%d" % (nb_ // 3, 2 * nb_ // 3), body=b) + loc], drop=rng.below(16))
+            nadd([srv(body=b) + loc], env=rng.choice(["t", "c", "m", "w100"]))
+        # ---- lines of 80-160 KiB: the over-long-line recovery depends on buffer alignment there (C10);
+        # the model does not predict these (answers '?'), the oracle still demands: entry = body + record,
+        # and the cache hit equals the download
+        for ln in (65000, 81900, 81919, 81920, 81921, 100000, 131072, 163000, 163839, 163840, 165000):
+            for pos in ("middle", "last", "unterminated"):
+                rec = b"PUBLIC a000 0 " + b"y" * (ln - 14)
+                if pos == "middle":
+                    b = join(lines[:6] + [rec] + lines[6:])
+                elif pos == "last":
+                    b = join(lines + [rec])
+                else:
+                    b = join(lines + [rec], final_nl=False)
+                fr = rng.choice(["L", "K4096,8192,100000", "L10000,50000,90000", "K1000", "E"])
+                add("lines_80_160k", case(0, [srv(framing=fr, body=b)]))
         # 200 KiB file, sampled cuts
         big_lines = sym_lines(df0, nfunc=2400, npub=1200)
         big = join(big_lines)
@@ -496,7 +580,7 @@ class C16(PropBase):
         cc = b.get("c", "?")
         if cc != "-":
             ents = cc.split(",")
-            if len(ents) == 1 and unhx(ents[0].split(":")[0]).decode("utf-8", "replace") == c.rel:
+            if len(ents) == 1 and c.rel is not None and unhx(ents[0].split(":")[0]).decode("utf-8", "replace") == c.rel:
                 cc = ":".join(ents[0].split(":")[1:])
         parts.append("c=" + cc)
         parts.append("t=" + b.get("t", "?"))
@@ -522,6 +606,13 @@ class C16(PropBase):
         bl = parse_blocks(ans)
         if "A" not in bl or "B" not in bl or (c.drop != "-" and ("X" not in bl or "Y" not in bl)):
             return "malformed answer"
+        if c.kind is not None:
+            return self.oracle_file(c, bl)
+        if c.nodebug and not c.redirected:
+            for name, b in bl.items():
+                if b.get("t") != "-" or b.get("c") != "-" or b["r"].startswith("OK"):
+                    return "module without debug file/id and no redirect: nothing can be looked up, yet block %s is %s" % (name, b)
+            return None
         committed = {}
         for i in range(len(c.servers)):
             sv = c.served(i)
@@ -558,7 +649,7 @@ class C16(PropBase):
                 first = bl["A"] if name in "AB" else bl["X"]
                 if name in "AB" and not first["r"].startswith("OK:"):
                     return "cache entry created by a lookup that did not succeed (%s)" % first["r"]
-                if name in "AB" and first["r"].startswith("OK:") and first.get("q", "-") != "-":
+                if name in "AB" and first["r"].startswith("OK:") and first.get("q", "-") != "-" and not (c.nodebug and name == "B"):
                     url = unhx(first["r"].split(":")[3]) if first["r"].split(":")[3] != "N" else None
                     if url != c.url(i):
                         return "cache entry annotated with a URL other than the one the lookup reports"
@@ -566,6 +657,10 @@ class C16(PropBase):
                 idx = []
                 for e in b["q"].split(","):
                     i, t = e.split(":")
+                    if c.nodebug and "?" not in unhx(t).decode("utf-8", "replace"):
+                        if idx:
+                            return "code-info lookup after a symbol download was already attempted"
+                        continue
                     idx.append(int(i))
                     if unhx(t).decode("utf-8", "replace") != c.target:
                         return "request target %r differs from the expected %r" % (unhx(t), c.target)
@@ -581,13 +676,15 @@ class C16(PropBase):
             if fa["r"].startswith("OK:") and (ours or fa.get("q") == "-"):
                 if fb["r"] != fa["r"]:
                     return "lookup served from the cache differs from the original: %s vs %s" % (fb["r"][:200], fa["r"][:200])
-                if fb.get("q") != "-":
+                if fb.get("q") != "-" and not c.nodebug:
                     return "second lookup used the network although the entry is cached"
+                if c.nodebug and any("3f" in e.split(":")[1] for e in fb.get("q", "-").split(",") if ":" in e):
+                    return "second lookup downloaded again although the entry is cached"
             if fa["c"] != fb["c"]:
                 return "second lookup (all servers 404) changed the cache: %s -> %s" % (fa["c"][:120], fb["c"][:120])
-        if bl["A"]["r"].startswith("OK:") and bl["A"].get("q", "-") != "-":
+        if bl["A"]["r"].startswith("OK:") and any((not c.nodebug) or "3f" in e.split(":")[1] for e in bl["A"].get("q", "-").split(",") if ":" in e):
             # a download succeeded: the reported URL is the one of the last server queried
-            last = int(bl["A"]["q"].split(",")[-1].split(":")[0])
+            last = int([e for e in bl["A"]["q"].split(",") if not c.nodebug or "3f" in e.split(":")[1]][-1].split(":")[0])
             u = bl["A"]["r"].split(":")[3]
             if u == "N" or unhx(u) != c.url(last):
                 return "downloaded symbol file does not report the URL it came from"
@@ -607,6 +704,57 @@ class C16(PropBase):
                 out.append({"case": None, "profile": prof, "found_input": False,
                             "what": "none of %d dropped lookups was dropped while its temp file existed: the drop cases no longer exercise the RAII window" % drops})
         return out
+
+    def oracle_file(self, c, bl):
+        """locate_file (binaries, extra debug info): fetch_lookup shares create_cache_file / NamedTempFile /
+        persist_noclobber with the symbol path but neither parses nor annotates: an entry is exactly a
+        complete 200 body, appears only with a successful lookup that returns its path, never after a drop;
+        tmp stays empty; a second lookup without network returns the same path."""
+        complete = {}
+        for i in range(len(c.servers)):
+            sv = c.served(i)
+            if sv is not None:
+                complete[sig(sv)] = i
+        foreign = set()
+        if c.pre.startswith("F"):
+            foreign.add(sig(unhx(c.pre[1:])))
+        for s_ in c.servers:
+            if s_["race"] is not None:
+                foreign.add(sig(s_["race"]))
+        for name in "ABXY":
+            if name not in bl:
+                continue
+            b = bl[name]
+            if b.get("t") != "-":
+                return "locate_file: stray file(s) in the tmp directory after block %s: sizes %s" % (name, b.get("t"))
+            files = [] if b["c"] == "-" else b["c"].split(",")
+            if len(files) > 1:
+                return "locate_file: more than one cache entry"
+            for f in files:
+                relhex, ln, crc = f.split(":")
+                s2 = "%s:%s" % (ln, crc)
+                if s2 in foreign:
+                    continue
+                if s2 not in complete:
+                    return "locate_file: cache entry (len %s) in block %s is not the complete body of any 200 response (partial file cached)" % (ln, name)
+                if name in "XY" and bl["X"]["c"] != "-":
+                    return "locate_file: cache entry created although the lookup was dropped"
+                if name in "AB":
+                    if not bl["A"]["r"].startswith("OK:"):
+                        return "locate_file: cache entry created by a lookup that did not succeed"
+                    if bl["A"]["r"] != "OK:" + relhex:
+                        return "locate_file: returned path differs from the entry's path"
+        for first, second in (("A", "B"), ("X", "Y")):
+            if first not in bl:
+                continue
+            fa, fb = bl[first], bl[second]
+            if fa["c"] != fb["c"]:
+                return "locate_file: second lookup (all servers 404) changed the cache"
+            if fa["r"].startswith("OK:") and fa["c"] != "-" and (fb["r"] != fa["r"] or fb.get("q") != "-"):
+                return "locate_file: lookup served from the cache differs from the original or used the network: %s vs %s" % (fb["r"], fa["r"])
+            if fa["r"].startswith("OK:") and fa["c"] == "-" and not fa["r"].startswith("OK:L"):
+                return "locate_file: reports a cache path that does not exist"
+        return None
 
     def nontrivial(self, case, ans):
         return ("DROPPED" in ans) or bool(re.search(r"c=[0-9a-f]", ans))
